@@ -278,6 +278,12 @@ func (l *sequenceListener) ExitLegacyAS(c *sequence.LegacyASContext) {
 
 func (l *sequenceListener) ExitAS(c *sequence.ASContext) {
 	re := c.GetText()[1:]
+	// The path is matched in its canonical textual form (lower-case hex, decimal for BGP AS
+	// numbers). Bring the AS of the expression into the same form, so that e.g. FF00:0:110 and
+	// ff00:0:110 denote the same AS.
+	if as, err := addr.ParseAS(re); err == nil {
+		re = as.String()
+	}
 	//fmt.Printf("AS: %s RE: %s\n", c.GetText(), re)
 	l.push(re)
 }
